@@ -757,7 +757,9 @@ def _write_scope_layers(
             # Trivia in front of the removed `let` stays in front; the body's own
             # leading trivia follows it.
             expr.before = preserved_before + [
-                item for item in restored_before if item not in preserved_before
+                item
+                for item in restored_before
+                if not any(item is kept for kept in preserved_before)
             ]
             expr.after = restored_after + [
                 item for item in preserved_after if item not in restored_after
